@@ -57,7 +57,7 @@ is_array = is_arr
 
 def is_int(value):
     """ is value an int, or any variant of np.intN type"""
-    return isinstance(value, (int, np.int64, np.int32, np.int16, np.int8))
+    return isinstance(value, (int, np.integer))
 
 def is_float(value):
     """ is value an float, or any variant of np.float """
@@ -65,7 +65,7 @@ def is_float(value):
 
 def is_num(value):
     """ is _int(value) or is_float(value)"""
-    return isinstance(value, (int, np.int64, np.int32, np.int16, np.int8, 
+    return isinstance(value, (int, np.integer, 
                               float, np.float16, np.float32, np.float64))
 
 def is_bool(value):
